@@ -185,6 +185,8 @@ def check(ctx, build=None):
                         break
                 if found:
                     break
+        # ---- re-translating over an older output file: still exactly one definition per declaration
+        found = gomod.retranslate_stream(ctx, scratch, "C04: the output file holds more or other definitions than the package", found)
     finally:
         shutil.rmtree(scratch, ignore_errors=True)
     C.report_broken_obligations(ctx, build, found)
@@ -209,6 +211,10 @@ def check(ctx, build=None):
 
 def replay(ctx, path):
     """re-run the layout stored in the replay file (the files themselves are in it)"""
+    _inp = json.load(open(path)).get("input", {})
+    if isinstance(_inp, dict) and _inp.get("proto") == "retranslate":
+        C.ensure_built("C04", ["printer"], need_harness=False, extra_go=EXTRA_GO)
+        return gomod.replay_retranslate(_inp)
     obj = json.load(open(path))
     inp = obj.get("input", {})
     if inp.get("proto") != "c04" or "files" not in inp:
